@@ -24,13 +24,27 @@ RULE = ("fields with DISTINCT integer tokens per cell/component and random masks
         "face may fall to either neighbour). Oracle on the real code alone: for every result cell the value/validity equal the "
         "source's at the result cell's centre (pad cells outside follow the physical rule of the mode), alignment, which axis "
         "went, containing cells of the bounds, minimal covering block, counts, region kept, in-region requests accepted and "
-        "outside requests rejected. non-trivial = op accepted, result has >= 2 cells or is a removed-axis selection of a >= 2-cell field")
+        "outside requests rejected. non-trivial = op accepted, result has >= 2 cells or is a removed-axis selection of a >= 2-cell field. "
+        "Family 'meta': fields in every label/mapping/element-type state reachable through the public constructor and setters (default "
+        "labels, no labels on a vector field, labelled scalar with mapping, labels removed afterwards with the mapping left behind "
+        "(scalar: mapping silently dropped by the result; vector: every operation refuses), permuted mapping, > 3 components) x dtype "
+        "float64/int64/complex128/float32, one in-region request per operation: nvdim, unit, vdims, vdim_mapping, subregions and bc of "
+        "the result mesh, ok/err and the kind of the result's array must EQUAL the model; oracle: mask boolean and arrays shaped like the mesh")
 TRUSTED = ["harness/c07.py, harness/fieldio.py + driver JSON glue",
            "np.pad modes and xarray/pandas nearest lookup are modelled by contract (validated against the real calls on every run)"]
 ASSUMPTIONS = ["theorems are about exact rational arithmetic; in the tolerance regime a coordinate closer than 1e-9 cell to a "
                "cell face may be attributed to either neighbouring cell",
-               "pad_width is a dict (distinct axes); np.pad kwargs other than mode are not used"]
-UNPROVED = ["metadata pass-through (vdims, unit, vdim_mapping) and subregion clipping are checked by correspondence only"]
+               "pad_width is a dict (distinct axes); np.pad kwargs other than mode are not used",
+               "acceptance of Mesh.sel/Field.sel on meshes with subregions, and the subregion theorems, assume subregions made of "
+               "whole cells with ordered corners (what the subregion setter enforces up to its tolerances)"]
+UNPROVED = ["element type of the result: the rule resultKind (sel/getitem/pad promote to float64 unless complex, resample keeps the kind) "
+            "is a three-line model definition checked by correspondence; the theorem result_kind only unfolds it",
+            "the hasattr name-clash test of the vdims setter is not modelled (labels of an existing field have passed it)",
+            "composition laws (sel_range_range, sel_plane_comm, getitem_getitem, pad_crop_roundtrip, resample_refine_back_id) are stated "
+            "for given successful intermediate results (acceptance is proved separately: *_accepts, *_accepts_subs, pad_crop_accepts); "
+            "sel_range_range excludes a sub-range whose upper bound lies exactly on the upper face of the first selection, where "
+            "the code attributes the face to different cells before and after the first selection",
+            "object identity is not modelled: the result's vdim_mapping is the source's dict object in the real code"]
 BUDGET = {"quick": 85, "thorough": 900}
 
 NAMES = fieldio.NAMES
@@ -426,6 +440,7 @@ def cases(rng, tier):
                 ops = resample_ops(rng, spec, tier)
             yield dict(regime="exact", fam=fam, mesh=spec, subs=subs, nvdim=rng.choice([1, 1, 2, 3]),
                        density=rng.choice([1.0, 0.8, 0.5]), sub=rng.getrandbits(32), ops=ops)
+    yield from meta_cases(rng, tier)
     for k in range(ntol):
         spec = int_tol_mesh(rng) if k % 5 == 4 else gen_tol_mesh(rng, big=(k % 3 == 0))
         subs = gen_subs_tol(rng, spec)
@@ -440,6 +455,50 @@ def cases(rng, tier):
                 ops = resample_ops(rng, spec, tier)[:4]
             yield dict(regime="tol", fam=fam, mesh=spec, subs=subs, nvdim=rng.choice([1, 2, 3]),
                        density=rng.choice([1.0, 0.7]), sub=rng.getrandbits(32), ops=ops)
+
+
+# ---- metadata family: fields in every label / mapping / element-type state, one in-region request per operation
+META_STATES = ["default", "nolabels-vector", "scalar-labelled", "scalar-stale", "vector-stale", "vector-permuted",
+               "many-components"]
+META_DTYPES = ["f8", "i8", "c16", "f4"]
+
+
+def meta_cases(rng, tier):
+    nmeta = 14 if tier == "quick" else 120
+    for k in range(nmeta):
+        state = META_STATES[k % len(META_STATES)]
+        spec = gen_exact_mesh(rng, max_cells=48, nmax=5)
+        ndim = len(spec["n"])
+        if state in ("vector-stale", "vector-permuted"):
+            while ndim not in (2, 3):
+                spec = gen_exact_mesh(rng, max_cells=48, nmax=5)
+                ndim = len(spec["n"])
+            nv = ndim
+        elif state == "nolabels-vector":
+            nv = rng.choice([v for v in (2, 3, 4) if v != ndim])
+        elif state in ("scalar-labelled", "scalar-stale"):
+            nv = 1
+        elif state == "many-components":
+            nv = rng.choice([4, 5])
+        else:
+            nv = rng.choice([1, 2, 3])
+        subs = gen_subs_exact(rng, spec)
+        lo, hi, c = geom(spec)
+        dims = dims_of(spec)
+        ax = rng.randrange(ndim)
+        n = spec["n"]
+        x1 = lo[ax] + (rng.randrange(n[ax]) + Fraction(rng.randint(1, 7), 8)) * c[ax]
+        x2 = lo[ax] + (rng.randrange(n[ax]) + Fraction(rng.randint(1, 7), 8)) * c[ax]
+        ops = [dict(op="sel", dim=dims[ax], arg=None, tag="centre"),
+               dict(op="sel", dim=dims[ax], arg={"range": [num(x1), num(x2)]}, tag="rg-interior-interior"),
+               dict(op="getregion", p1=[num(v) for v in lo], p2=[num(v) for v in hi], tag="box-whole")]
+        ops += [dict(op="getname", name=sb[0], tag="name") for sb in subs[:1]]
+        d = rng.choice(dims)
+        ops.append(dict(op="pad", pad=[[d, rng.randint(0, 2), rng.randint(1, 2)]], mode=rng.choice(MODES), tag="pad-meta"))
+        ops.append(dict(op="resample", n=list(n), tag="rs-same"))
+        ops.append(dict(op="resample", n=[rng.choice([1, 2, 3, 2 * v]) for v in n], tag="rs"))
+        yield dict(regime="exact", fam="meta", mesh=spec, subs=subs, nvdim=nv, density=rng.choice([1.0, 0.6]),
+                   sub=rng.getrandbits(32), ops=ops, meta=dict(state=state, dtype=META_DTYPES[(k // 2) % len(META_DTYPES)]))
 
 
 # ------------------------------------------------------------------------------ the real code
@@ -461,10 +520,59 @@ def build(case):
     arr = np.array(tokens, dtype=float).reshape(*mesh.n, nv)
     mask = np.array([rng.random() < case["density"] for _ in range(ncell)], dtype=bool).reshape(tuple(mesh.n))
     kwf = {}
+    meta = case.get("meta")
+    if meta:
+        return mesh, build_meta(mesh, nv, arr, mask, rng.choice([None, "A/m"]), meta)
     if nv > 1 and rng.random() < 0.4:
         kwf["vdims"] = ["p", "q", "r"][:nv]
     f = df.Field(mesh, nvdim=nv, value=arr, valid=mask, unit=rng.choice([None, "A/m"]), **kwf)
     return mesh, f
+
+
+def build_meta(mesh, nv, arr, mask, unit, meta):
+    """a field in the requested label / mapping state, built through the public constructor and setters only"""
+    dtype = np.dtype(meta["dtype"])
+    arr = arr.astype(dtype)
+    dims = list(mesh.region.dims)
+    state = meta["state"]
+    kw = dict(nvdim=nv, value=arr, valid=mask, unit=unit, dtype=dtype)
+    if state in ("default", "many-components"):
+        f = df.Field(mesh, **kw)
+    elif state == "nolabels-vector":  # an empty label list means "no labels"; the mapping is then empty
+        f = df.Field(mesh, vdims=[], **kw)
+    elif state in ("scalar-labelled", "scalar-stale"):
+        f = df.Field(mesh, vdims=["s"], vdim_mapping={"s": dims[0]}, **kw)
+        if state == "scalar-stale":
+            f.vdims = []  # labels removed, the one-entry mapping stays behind
+    elif state == "vector-stale":
+        f = df.Field(mesh, vdims=["a", "b", "c"][:nv], **kw)
+        f.vdims = []  # labels removed, the mapping keeps the old labels as keys
+    elif state == "vector-permuted":
+        labels = ["p", "q", "r"][:nv]
+        f = df.Field(mesh, vdims=labels, vdim_mapping=dict(zip(labels, dims[1:] + dims[:1])), **kw)
+    else:
+        raise ValueError(state)
+    return f
+
+
+def field_json_real(f):
+    """fieldio.field_json, with a complex array of zero imaginary part sent as its real part"""
+    arr = np.asarray(f.array)
+    if np.iscomplexobj(arr):
+        if np.any(arr.imag != 0):
+            raise ValueError("non-real complex field")
+        arr = arr.real
+    nv = f.nvdim
+    arr = arr.reshape(-1, nv)
+    return dict(mesh=fieldio.mesh_json(f.mesh), nvdim=int(nv), data=[Qs(row) for row in arr.tolist()],
+                valid=[bool(v) for v in np.asarray(f.valid).reshape(-1).tolist()],
+                vdims=(list(f.vdims) if f.vdims is not None else None),
+                vmap=[[k, v] for k, v in f.vdim_mapping.items() if v is not None], unit=f.unit)
+
+
+def kind_of(a):
+    k = np.asarray(a).dtype.kind
+    return "i" if k == "u" else k
 
 
 def attempt(fn):
@@ -962,14 +1070,31 @@ def run_impl(case):
     obs["ctx"] = ctx
     f = ctx.f
     snap = (f.array.copy(), f.valid.copy())
-    obs["field_json"] = fieldio.field_json(f)
+    obs["field_json"] = field_json_real(f)
+    meta = case.get("meta")
+    # a labelled vector field whose labels were removed keeps a mapping keyed by the old labels; the constructor
+    # call at the end of every operation then refuses the mapping, whatever the request (recorded, compared with
+    # the model, not judged by the position oracle)
+    stale = bool(meta) and meta["state"] == "vector-stale"
+    if meta:
+        obs["tags"] += ["meta:" + meta["state"], "dtype:" + meta["dtype"]]
+        obs["src_kind"] = kind_of(f.array)
     obs["tags"] += [f"ndim:{ctx.ndim}", f"nvdim:{f.nvdim}", f"subs:{len(case.get('subs', []))}",
                     "corners:" + ("int" if f.mesh.region.pmin.dtype.kind == "i" else "float")]
     nontriv = False
     for k, op in enumerate(case["ops"]):
         r = {}
         fails = []
-        RUNNERS[op["op"]](ctx, op, r, fails.append)
+        RUNNERS[op["op"]](ctx, op, r, (lambda t: None) if stale else fails.append)
+        if meta:
+            fr0 = r.get("field")
+            if fr0 and fr0[0] == "ok" and isinstance(fr0[1], df.Field):
+                g0 = fr0[1]
+                r["kind"] = kind_of(g0.array)
+                if kind_of(g0.valid) != "b" or g0.valid.shape != tuple(int(v) for v in g0.mesh.n) or \
+                        g0.array.shape != tuple(int(v) for v in g0.mesh.n) + (f.nvdim,):
+                    fails.append(f"{op['op']}: validity mask / value array of the result do not have the shape of its mesh "
+                                 f"(valid {g0.valid.dtype} {g0.valid.shape}, array {g0.array.shape}, n {g0.mesh.n})")
         for t in fails:
             t = f"op {k}: {t}"
             obs["oracle"].append(t)
@@ -1033,7 +1158,12 @@ def model_requests(case, obs):
             reqs.append(dict(op="field_pad", field=fj, pad=pw, mode=op["mode"]))
         elif kind == "resample":
             reqs.append(dict(op="resample", field=fj, n=op["n"]))
+        if case.get("meta"):
+            reqs.append(dict(op="result_kind", fam=FAM_OF[kind], kind=obs["src_kind"]))
     return reqs
+
+
+FAM_OF = {"sel": "sel", "getname": "getitem", "getregion": "getitem", "pad": "pad", "resample": "resample", "r2s": "getitem"}
 
 
 NREQ = {"sel": 3, "getname": 2, "getregion": 2, "r2s": 1, "pad": 2, "resample": 1}
@@ -1098,7 +1228,7 @@ def cmp_mesh(ctx, name, m, mj, dis, loose_axes=(), check_subs=True):
 
 
 def cmp_field_data(name, g, mj, dis, only=None):
-    got = fieldio.field_json(g)
+    got = field_json_real(g)
     for key, label in (("nvdim", "nvdim"), ("vdims", "vdims"), ("unit", "unit")):
         if got[key] != mj[key]:
             dis.append(f"{name}: {label} impl {got[key]} vs model {mj[key]}")
@@ -1129,6 +1259,12 @@ def compare(case, obs, rs):
         pos += NREQ[op["op"]]
         name = f"op {k} {op['op']}"
         kind = op["op"]
+        if case.get("meta"):
+            kresp = rs[pos]
+            pos += 1
+            if "kind" in r and r["kind"] != kresp.get("ok"):
+                dis.append(f"{name}: element type of the result is kind {r['kind']!r} for a source of kind "
+                           f"{obs['src_kind']!r}, the model says {kresp.get('ok')!r}")
         d0 = len(dis)
         if kind == "sel":
             name += f"({op['dim']}={op['arg']})"
@@ -1174,7 +1310,8 @@ def compare(case, obs, rs):
             if isinstance(g, np.ndarray):
                 if "values" not in mf:
                     dis.append(f"{name}: impl returned a bare array, model a field")
-                elif same_idx and [FR(x) for x in g.tolist()] != [F(x) for x in mf["values"]]:
+                elif same_idx and [FR(x.real if isinstance(x, complex) and x.imag == 0 else x) for x in g.tolist()] \
+                        != [F(x) for x in mf["values"]]:
                     dis.append(f"{name}: values impl {g.tolist()} vs model {mf['values']}")
             else:
                 if "field" not in mf:
@@ -1267,6 +1404,8 @@ def search(case, rng):
             c["ops"] = (getitem_ops_exact if exact else getitem_ops_tol)(rng, spec, subs, "thorough")
         elif fam == "pad":
             c["ops"] = pad_ops(rng, spec, "thorough")
+        elif fam == "meta":
+            break
         else:
             c["ops"] = resample_ops(rng, spec, "thorough")
         c["sub"] = rng.getrandbits(32)
